@@ -70,6 +70,27 @@ func Std() *Decl {
 	}
 }
 
+// Alt is a second declared program with less regular names: a flag whose LONG name is listed first, a flag
+// with two short names, a valued option with three names.
+func Alt() *Decl {
+	return &Decl{
+		Opts: []OptDecl{
+			{Key: "a", Names: []string{"--aa", "-a"}, Flag: true},
+			{Key: "n", Names: []string{"-n", "-m"}, Flag: true},
+			{Key: "o", Names: []string{"--out", "-o", "--output"}, Flag: false},
+		},
+		Args: []string{"X"},
+	}
+}
+
+// DeclByName returns the declared program of a replayable case.
+func DeclByName(n string) *Decl {
+	if n == "alt" {
+		return Alt()
+	}
+	return Std()
+}
+
 // ---------------------------------------------------------------- spec AST
 
 const (
